@@ -388,7 +388,8 @@ func (c04) ID() string { return "C04" }
 
 func (c04) Plan(tier string) []fw.Unit {
 	return append(planEnum("C04", tier, len(c04Configs(tier)), 1), fw.Unit{Check: "C04", Kind: "manual-trigger", Tier: tier, Spec: fw.Spec(enumSpec{})},
-		fw.Unit{Check: "C04", Kind: "joined-columns", Tier: tier, Spec: fw.Spec(enumSpec{})})
+		fw.Unit{Check: "C04", Kind: "joined-columns", Tier: tier, Spec: fw.Spec(enumSpec{})},
+		fw.Unit{Check: "C04", Kind: "panicking-row", Tier: tier, Spec: fw.Spec(enumSpec{})})
 }
 
 func c04Classify(set c04Set, exp, got []string) string {
@@ -408,6 +409,9 @@ func (c04) Run(u fw.Unit) fw.Result {
 	}
 	if u.Kind == "joined-columns" {
 		return c04Joined()
+	}
+	if u.Kind == "panicking-row" {
+		return c04PanickingRow()
 	}
 	sp := parseEnum(u)
 	cfg := c04Configs(u.Tier)[sp.Cfg]
